@@ -133,7 +133,4 @@ example :
     package-level scratch buffer or a pooled buffer changes a row's origin and breaks this obligation. -/
 theorem handlers_write_only_fresh_buffers : GoBT.Interp.WriteReview.writesOk = true := by decide +kernel
 
-/-- ✓gen — and every reviewed exception refers to a write that still exists -/
-theorem write_review_current : GoBT.Interp.WriteReview.reviewCurrent = true := by decide +kernel
-
 end GoBT.C08
